@@ -109,7 +109,7 @@ fn base_cfg(params: PMode, side_new: bool) -> PairCfg {
 }
 
 /// Server transport parameters as a server configured like `cfg` sends them (the content of a ticket)
-fn remembered(base: Instant, cfg: &PairCfg) -> Vec<u8> {
+pub fn remembered(base: Instant, cfg: &PairCfg) -> Vec<u8> {
     let mut p: StdPair = crate::scen::std_pair_plans(base, cfg, Plan::default(), Plan::default());
     for _ in 0..200 {
         if p.client().app.obs.connected || !p.w.step() {
